@@ -221,7 +221,7 @@ class Interp:
         n = len(key)
         for k in [k for k in st.cells if k[:n] == key]:
             del st.cells[k]
-        for f in [f for f in st.facts if f[1][:n] == key]:
+        for f in [f for f in st.facts if f[1][:n] == key or (f[0] == "implies" and isinstance(f[2], tuple) and f[2][:n] == key)]:
             st.facts.discard(f)
 
     def kill_local_indexed(self, st, l):
@@ -1404,6 +1404,26 @@ class Interp:
                 es = self.new_sym(("enumelem", at), None, None, frozenset(), ("elemof", coll, ns), None)
                 st.cells[dest + ("as Some", ".0", ".1")] = es
                 return "range"
+        if p in ("core::iter::traits::iterator::Iterator::position", "core::iter::traits::iterator::Iterator::rposition") and len(args) == 2 and full.startswith("<core::slice::iter::Iter"):
+            # `c.iter().position(pred)`: Some(i) with i a position in c (the index `enumerate` would have produced)
+            tgt = self.ref_target(st, args[0])
+            sid0 = st.cells.get(tgt) if tgt is not None else None
+            if sid0 is None:
+                src = op_place(args[0])
+                sid0 = st.cells.get(place_key(src)) if src is not None else None
+            d0 = self.syms[sid0].defn if sid0 is not None else None
+            if d0 and d0[0] == "iterof":
+                coll = d0[1]
+                lk = coll + ("#len",)
+                ls = st.cells.get(lk)
+                if ls is None:
+                    lo0 = 1 if ("nonempty", coll) in st.facts else 0
+                    ls = self.new_sym(("lenof", at, "pos"), lo0, LEN_MAX, frozenset(["LEN"]), ("len", coll), "usize")
+                    st.iv[ls] = (lo0, LEN_MAX)
+                    st.cells[lk] = ls
+                ns = self.set_dest(st, dest, ("as Some", ".0"), 0, LEN_MAX - 1, frozenset(["LEN"]), at, ("enumitem", coll, ls), "usize")
+                st.rel.add((ns, "<", ls))
+                return "pure"
         if p in ("core::ops::index::Index::index", "core::ops::index::IndexMut::index_mut") and len(args) == 2:
             ipl0 = op_place(args[1])
             if ipl0 is not None and is_int_ty(ipl0["ty"]):
@@ -1706,6 +1726,35 @@ class Interp:
         if out.rel != old.rel:
             changed = True
         out.facts = old.facts & new.facts
+        # an implication `K is Some/Ok  =>  P is v` survives when the other side does not contradict it: there K is known to
+        # be the negative variant (vacuous) or P is known to be v
+        POS = ("Some", "Ok", "Continue")
+
+        def consistent(f, other):
+            kv = [g[2] for g in other.facts if g[0] == "variant" and g[1] == f[1]]
+            if kv and all(v not in POS for v in kv):
+                return True
+            return ("variant", f[2], f[3]) in other.facts
+        for f in old.facts:
+            if f[0] == "implies" and f not in new.facts and consistent(f, new):
+                out.facts.add(f)
+        for f in new.facts:
+            if f[0] == "implies" and f not in old.facts and consistent(f, old):
+                out.facts.add(f)
+        # variants that differ between the two sides in lock step (`match x { Some(a) => Some(f(a)), None => None }`):
+        # in the joined state the result being Some implies the scrutinee was Some
+        vo = {g[1]: g[2] for g in old.facts if g[0] == "variant"}
+        vn = {g[1]: g[2] for g in new.facts if g[0] == "variant"}
+        diff = [k for k in vo if k in vn and vo[k] != vn[k]]
+        if 2 <= len(diff) <= 12:
+            for K in diff:
+                for Pk in diff:
+                    if K == Pk:
+                        continue
+                    if vo[K] in POS:
+                        out.facts.add(("implies", K, Pk, vo[Pk]))
+                    if vn[K] in POS:
+                        out.facts.add(("implies", K, Pk, vn[Pk]))
         if out.facts != old.facts:
             changed = True
         for a, p in old.ub.items():
